@@ -66,6 +66,14 @@ class ProcGen:
     def simple(self):
         rng = self.rng
         x = rng.random()
+        if x < 0.08:
+            # DDL inside a body (no IF EXISTS: known finding D17-if-exists)
+            what = rng.choice([['truncate', 'table'], ['drop', 'table'],
+                               ['drop', 'view'], ['alter', 'table']])
+            parts = [self.kw(w) for w in what] + [self.name()]
+            if what[0] == 'alter':
+                parts += [self.kw('add'), self.name(), 'int']
+            return self.join(parts) + ';'
         if x < 0.35:
             return self.render_stmt(self.gen, rng.choice(
                 ['select', 'insert', 'update', 'delete'])) + ';'
